@@ -281,6 +281,7 @@ def splitter_sets(prog, sp):
             if f and f.get("inputs") == ["char"] and f.get("output") == "bool" and not f.get("impl"):
                 pe = pe or PredEval(prog)
                 dom = [chr(c) for c in range(0x20, 0x7f)] + list("‘’“”।॥") + ["ক", "া", "‌"]
+                dom += sorted({c for lit, _ in out for c in lit} - set(dom))       # every character a literal set of the splitter names
                 cs = pe.char_set(n, dom)
                 if cs:
                     out.append(("".join(sorted(cs)), bb))
